@@ -11,7 +11,7 @@ pub struct P;
 pub static C04: P = P;
 
 pub const WORDS: [&str; 14] = ["a", "bb", "ccc", "dddd", "eeeee", "ffffff", "ggggggg", "中", "x中", "中y", "中中", "e\u{301}", "中中中中", "\u{301}z"];
-const NVARIANTS: usize = 5;
+const NVARIANTS: usize = 7;
 
 /// Reference greedy wrapper.  `words` are non-empty, whitespace-free.  Err = a character
 /// is wider than the whole line.
@@ -96,7 +96,28 @@ pub fn body(words: &[&str], variant: usize) -> String {
             })
             .collect::<Vec<_>>()
             .join("<code> </code>"),
-        _ => words.join("<span> </span>"),
+        4 => words.join("<span> </span>"),
+        // a tag boundary inside every word: long untagged head, short tagged tail (and the reverse)
+        5 => words
+            .iter()
+            .map(|w| {
+                let n = w.chars().count();
+                let head: String = w.chars().take(n - n / 3 - if n > 1 && n / 3 == 0 { 1 } else { 0 }).collect();
+                let tail: String = w.chars().skip(head.chars().count()).collect();
+                if tail.is_empty() { head } else { format!("{head}<em>{tail}</em>") }
+            })
+            .collect::<Vec<_>>()
+            .join(" "),
+        _ => words
+            .iter()
+            .map(|w| {
+                let n = w.chars().count();
+                let head: String = w.chars().take((n + 1) / 2).collect();
+                let tail: String = w.chars().skip((n + 1) / 2).collect();
+                if tail.is_empty() { format!("<code>{head}</code>") } else { format!("<strong>{head}</strong><code>{tail}</code>") }
+            })
+            .collect::<Vec<_>>()
+            .join(" "),
     }
 }
 
@@ -212,9 +233,10 @@ impl Scope for S {
         let code = unit - self.offsets[k - 1];
         let idx = decode(code, &vec![WORDS.len(); k]);
         let words: Vec<String> = idx.iter().map(|&i| WORDS[i].to_string()).collect();
-        let nctx = if k <= 4 { CTXS.len() } else { 3 };
+        // 4-word sequences: four of the seven contexts (top level, list item, heading, nested)
+        let ctxs: Vec<usize> = if k <= 3 { (0..CTXS.len()).collect() } else if k == 4 { vec![0, 1, 4, 6] } else { vec![0, 1, 2] };
         for variant in 0..NVARIANTS {
-            for ctx in 0..nctx {
+            for &ctx in &ctxs {
                 for width in self.widths(k) {
                     check(&Case { words: words.clone(), variant, ctx, width, m: None }, cx);
                 }
@@ -245,7 +267,7 @@ impl Scope for S {
     fn info(&self) -> Info {
         Info {
             rule: "every word sequence of length <= maxk over the 14-shape menu x 5 splittings into text nodes/inline elements x block contexts x every width in range (x max_wrap_width m); distinct by construction; non-trivial = the reference lays the paragraph out on >= 2 lines (a wrap or hard split happened)".into(),
-            bounds: json!({"word_menu": WORDS, "max_words": self.maxk, "variants": NVARIANTS, "contexts": CTXS.iter().map(|c| c.name).collect::<Vec<_>>(),
+            bounds: json!({"word_menu": WORDS, "max_words": self.maxk, "variants": NVARIANTS, "variant_kinds": ["plain text", "odd whitespace", "alternate words in em", "first char in span/strong, code separators", "separators in span", "word = untagged head + em tail", "word = strong head + code tail"], "contexts": CTXS.iter().map(|c| c.name).collect::<Vec<_>>(),
                 "widths": match self.tier { Tier::Quick => "1..=10", Tier::Thorough => "1..=40 (<=4 words), 1..=10 (5 words)" }, "max_wrap_width": "quick {1,4,w-1}; thorough 1..=w for w<=12"}),
             assumptions: vec!["rich decorator (no affixes) is used so that inline elements add no characters".into(), "TooNarrow in a prefixed block with fewer than 3 content columns is accepted (C11)".into()],
         }
